@@ -12,6 +12,7 @@ import (
 	"unsafe"
 
 	"github.com/philpearl/avro"
+	"github.com/unravelin/null/v5"
 
 	"verifharness/dynenc"
 	"verifharness/filedrv"
@@ -113,6 +114,156 @@ func initC11(c *fw.Ctx) {
 	avro.Register(probeT, func(schema avro.Schema, typ reflect.Type, omit bool) (avro.Codec, error) {
 		return probeCodec{typ: typ}, nil
 	})
+}
+
+// ---- primer: a record type all of whose bank allocations are POINTER-FREE, in the sizes (8, 16, 24, 32 bytes) that
+// pointer-carrying allocations of other record types have too. Reading it first and closing its banks leaves the
+// pool holding banks whose typed arenas were made for pointer-free types.
+
+type Primer struct {
+	A []*int64      `json:"a"`
+	B []*null.Int   `json:"b"`
+	C []*Tri        `json:"c"`
+	D []*null.Float `json:"d"`
+	E []*Quad       `json:"e"`
+	F []*float64    `json:"f"`
+}
+
+type Tri struct{ X, Y, Z int64 }
+type Quad struct{ W, X, Y, Z int64 }
+
+var primerFile []byte
+
+func primer() []byte {
+	if primerFile != nil {
+		return primerFile
+	}
+	var buf bytes.Buffer
+	enc, err := dynenc.New(reflect.TypeOf(Primer{}), &buf, "null", 0)
+	if err != nil {
+		panic("primer: " + err.Error())
+	}
+	for r := 0; r < 3; r++ {
+		var p Primer
+		for i := 0; i < 20; i++ {
+			x, n, fl, y := int64(i), null.IntFrom(int64(i)), null.FloatFrom(float64(i)), float64(i)
+			c, e := Tri{1, 2, 3}, Quad{1, 2, 3, 4}
+			p.A, p.B, p.C, p.D, p.E, p.F = append(p.A, &x), append(p.B, &n), append(p.C, &c), append(p.D, &fl), append(p.E, &e), append(p.F, &y)
+		}
+		enc.Encode(unsafe.Pointer(&p))
+	}
+	enc.Flush()
+	primerFile = append([]byte(nil), buf.Bytes()...)
+	return primerFile
+}
+
+func readPrimer() {
+	avro.ReadFile(&filedrv.Reader{Data: primer()}, Primer{}, func(val unsafe.Pointer, rb *avro.ResourceBank) error {
+		rb.Close()
+		return nil
+	})
+}
+
+// ---- mixed retention: records that take nothing from their bank (numbers, empty strings, empty maps) between
+// records that do; the application closes the banks of the former at once and keeps the latter. With a collection
+// at any one callback and two afterwards, every kept record must still hold what was decoded.
+
+type MixRec struct {
+	N int64             `json:"n"`
+	S string            `json:"s"`
+	M map[string]string `json:"m"`
+	L []int64           `json:"l"`
+}
+
+func runMixedRetention(c *fw.Ctx) {
+	t := reflect.TypeOf(MixRec{})
+	var vals []MixRec
+	for i := 0; i < 12; i++ {
+		if i%3 == 0 { // nothing to take from the bank
+			vals = append(vals, MixRec{N: int64(i), L: []int64{int64(i), 2, 3}})
+		} else {
+			vals = append(vals, MixRec{N: int64(i), S: fmt.Sprintf("string-of-record-%02d-%s", i, strings.Repeat("x", i)), M: map[string]string{fmt.Sprintf("key-%02d", i): fmt.Sprintf("value-%02d", i)}})
+		}
+	}
+	for _, bs := range []int{0, 1 << 20} {
+		var buf bytes.Buffer
+		enc, err := dynenc.New(t, &buf, "null", bs)
+		if err != nil {
+			c.HarnessError("mixed retention: " + err.Error())
+			return
+		}
+		for i := range vals {
+			enc.Encode(unsafe.Pointer(&vals[i]))
+		}
+		enc.Flush()
+		file := append([]byte(nil), buf.Bytes()...)
+		for gcAt := -1; gcAt < len(vals); gcAt++ {
+			for mode := 0; mode < 3; mode++ {
+				closeFree, lag := mode > 0, mode == 2
+				c.Eval(1)
+				desc := fmt.Sprintf("mixed retention (block size %d): banks of allocation-free records closed=%v (one callback later=%v), collection at callback %d", bs, closeFree, lag, gcAt)
+				locus := "mixed-retention"
+				det := map[string]interface{}{"blocksize": bs, "close_allocation_free_banks": closeFree, "one_callback_later": lag, "gc_at_callback": gcAt}
+				c.Begin(locus, desc)
+				c.Nontrivial(desc)
+				var kept []MixRec
+				var banks []*avro.ResourceBank
+				var rerr error
+				var pendingClose *avro.ResourceBank
+				i := 0
+				pan, site := run(func() {
+					rerr = avro.ReadFile(&filedrv.Reader{Data: file}, MixRec{}, func(val unsafe.Pointer, rb *avro.ResourceBank) error {
+						if i == gcAt {
+							collect()
+						}
+						r := *(*MixRec)(val)
+						kept = append(kept, r)
+						if pendingClose != nil {
+							pendingClose.Close()
+							pendingClose = nil
+						}
+						switch {
+						case closeFree && i%3 == 0 && lag:
+							pendingClose = rb
+						case closeFree && i%3 == 0:
+							rb.Close()
+						default:
+							banks = append(banks, rb)
+						}
+						i++
+						return nil
+					})
+				})
+				if pan != nil {
+					c.Violation("panic:"+fw.PanicClass(pan)+"@"+site+"|"+locus, fmt.Sprintf("panic %v — %s", pan, desc), det)
+					continue
+				}
+				if rerr != nil || len(kept) != len(vals) {
+					c.Violation("read-error|"+locus, fmt.Sprintf("err=%v records=%d — %s", rerr, len(kept), desc), det)
+					continue
+				}
+				for pass := 0; pass < 2; pass++ {
+					collect()
+					bad := false
+					for j := range vals {
+						if closeFree && j%3 == 0 {
+							continue // its bank is closed: nothing is promised
+						}
+						if d := gv.Equal(reflect.ValueOf(vals[j]), reflect.ValueOf(kept[j])); d != "" {
+							c.Violation("decoded-value-lost-after-gc|mixed-retention", fmt.Sprintf("kept record %d (bank open) no longer holds what was decoded (pass %d): %s — %s", j, pass, d, desc), det)
+							bad = true
+							break
+						}
+					}
+					if bad {
+						break
+					}
+				}
+				runtime.KeepAlive(banks)
+			}
+		}
+	}
+	c.Sample(map[string]interface{}{"kind": "mixed retention", "records": len(vals)})
 }
 
 // ---- garbage: allocate objects of many size classes so that freed slots are reused and overwritten
@@ -367,6 +518,9 @@ func runType(c *fw.Ctx, idx int, tc tcase, bound int) {
 		desc := fmt.Sprintf("decode %s (variant %s) with collections at %s", tc.name, [...]string{"banks kept", "banks dropped unclosed", "banks recycled from the pool", "banks kept, arrays and maps written one item per block"}[variant], ch.Desc())
 		if variant == 2 {
 			hook = nil
+			if execs%2 == 0 {
+				readPrimer() // banks last used for a pointer-free record type of another shape
+			}
 			avro.ReadFile(&filedrv.Reader{Data: cleanFile}, reflect.New(outer).Elem().Interface(), func(val unsafe.Pointer, rb *avro.ResourceBank) error {
 				rb.Close()
 				return nil
@@ -648,7 +802,7 @@ func init() {
 			if tier == "thorough" {
 				b = 2
 			}
-			return fmt.Sprintf("workers run with GOGC=off GODEBUG=clobberfree=1,invalidptr=1, so the only collections are the ones the explorer injects and a freed object is overwritten at once; the library is rebuilt with a generated overlay that calls a hook before every statement of every function, and an instrumented leaf type GCProbe (registered custom codec) adds points inside every Read (before/middle/after), New, Omit and Write, plus callback entry and before/after each Encode: every one of these is a choice point (statement points on the decode/encode path: codecs, banks, buffers, the record loop of ReadFile, Encoder; quick tier: the first dynamic occurrence of each static point in the main variant and in encoding, codec-boundary points only in the other variants; thorough: the first two occurrences in all variants); the type universe puts probes inside and after every composite: all type expressions of depth<=2 (3 for maps and pointers in thorough) over leaves {GCProbe,string,[]byte,int64,*int64,*GCProbe,time.Time,null.String} and wrappers {*τ,[]τ,map[string]τ,struct{X τ;P GCProbe}}, each as struct{F τ; Tail GCProbe; G τ omitempty}; the decode direction runs in four variants (banks kept by the application; records kept but banks dropped unclosed; banks recycled from the pool after an earlier read whose banks were closed, one collection in between; banks kept and the file rewritten by the reference writer with every array and map one item per block, every second block size-prefixed, so that slices and maps grow while holding items); for every type and variant ALL placements of at most %d injected collection(s) (each = 2×runtime.GC + allocation of garbage in 16 size classes) during ReadFile and during encoding are enumerated, and one collection is always run after decoding and again after the first comparison; oracle: every retained (shallow-copied) record equals the value written after the last collection, encoded data equals the collection-free run as a datum, the worker does not die; distinct_nontrivial = (type, placement) executions", b)
+			return fmt.Sprintf("workers run with GOGC=off GODEBUG=clobberfree=1,invalidptr=1, so the only collections are the ones the explorer injects and a freed object is overwritten at once; the library is rebuilt with a generated overlay that calls a hook before every statement of every function, and an instrumented leaf type GCProbe (registered custom codec) adds points inside every Read (before/middle/after), New, Omit and Write, plus callback entry and before/after each Encode: every one of these is a choice point (statement points on the decode/encode path: codecs, banks, buffers, the record loop of ReadFile, Encoder; quick tier: the first dynamic occurrence of each static point in the main variant and in encoding, codec-boundary points only in the other variants; thorough: the first two occurrences in all variants); the type universe puts probes inside and after every composite: all type expressions of depth<=2 (3 for maps and pointers in thorough) over leaves {GCProbe,string,[]byte,int64,*int64,*GCProbe,time.Time,null.String} and wrappers {*τ,[]τ,map[string]τ,struct{X τ;P GCProbe}}, each as struct{F τ; Tail GCProbe; G τ omitempty}; the decode direction runs in four variants (banks kept by the application; records kept but banks dropped unclosed; banks recycled from the pool after earlier reads whose banks were closed — of the same file and, every other placement, of a primer file whose record type takes only pointer-free allocations of 8/16/24/32 bytes from its banks — one collection in between; banks kept and the file rewritten by the reference writer with every array and map one item per block, every second block size-prefixed, so that slices and maps grow while holding items); for every type and variant ALL placements of at most %d injected collection(s) (each = 2×runtime.GC + allocation of garbage in 16 size classes) during ReadFile and during encoding are enumerated, and one collection is always run after decoding and again after the first comparison; plus a mixed-retention scenario (records that take nothing from their bank between records that do; the former's banks closed at once or one callback later, a collection at any one callback); oracle: every retained (shallow-copied) record equals the value written after the last collection, encoded data equals the collection-free run as a datum, the worker does not die; distinct_nontrivial = (type, placement) executions", b)
 		},
 		Assumptions: []string{
 			"collections land at interception points: in the overlay build (the registered command) that is before EVERY statement of every library function (generated zzvs.StmtPoint hooks), plus inside the probe codec and at callback entry; a collection between two machine instructions of one statement (e.g. inside a single expression that converts a uintptr back to a pointer) is not placed",
@@ -659,7 +813,7 @@ func init() {
 			if _, ok := memo[tier]; !ok {
 				memo[tier] = universe(tier)
 			}
-			return len(memo[tier])
+			return len(memo[tier]) + 1
 		},
 		RunCase: func(c *fw.Ctx, idx int) {
 			if _, ok := memo[c.Tier]; !ok {
@@ -668,6 +822,10 @@ func init() {
 			b := 1
 			if c.Tier == "thorough" {
 				b = 2
+			}
+			if idx == len(memo[c.Tier]) {
+				runMixedRetention(c)
+				return
 			}
 			runType(c, idx, memo[c.Tier][idx], b)
 		},
